@@ -77,6 +77,13 @@ def grammar_fingerprint():
 def ensure_build():
     """Rebuild the harness (and therefore iref) from /repo's current working tree."""
     os.makedirs(WORK, exist_ok=True)
+    # the harness depends on the library through the link work/repo -> /repo (VERIF_REPO: a scratch
+    # worktree, used to try seeded changes without touching /repo)
+    link = os.path.join(WORK, "repo")
+    if not os.path.islink(link) or os.readlink(link) != REPO:
+        if os.path.lexists(link):
+            os.remove(link)
+        os.symlink(REPO, link)
     lock = os.path.join(HARNESS, "Cargo.lock")
     if not os.path.exists(lock):
         shutil.copy(os.path.join(REPO, "Cargo.lock"), lock)
@@ -161,8 +168,8 @@ def run_tlc(model, cfg=None, name=None, workers=8, timeout=None, simulate=None, 
     shutil.rmtree(wdir, ignore_errors=True)
     os.makedirs(wdir)
     raw = os.path.join(wdir, "tlc.out")
-    jopts = "-Xss1g -Xmx%s -DTLA-Library=%s" % (xmx, ":".join([SPEC, GEN, os.path.join(SPEC, "mc"),
-                                                              os.path.join(SPEC, "trace")]))
+    jopts = "-Xss1g -Xmx%s -Djava.io.tmpdir=%s -DTLA-Library=%s" % (
+        xmx, wdir, ":".join([SPEC, GEN, os.path.join(SPEC, "mc"), os.path.join(SPEC, "trace")]))
     if deque:
         jopts += " -Dtlc2.tool.queue.IStateQueue=StateDeque"
     cmd = ["java", "-XX:+UseParallelGC", "-cp", JAR + ":" + DEPS, "tlc2.TLC",
@@ -376,6 +383,123 @@ def run_trace(events_path, name="trace", spec="trace/Trace_Events", workers=8, t
             name, r.distinct, expect))
     log("trace  %-26s %9d events   %6d non-conforming" % (name, n, len(bad)))
     return n, bad, r
+
+
+def _codepoints(hexstr):
+    if hexstr is None:
+        return [-1]
+    raw = bytes.fromhex(hexstr)
+    try:
+        return [ord(ch) for ch in raw.decode("utf-8")]
+    except UnicodeDecodeError:
+        return [0x110000 + b for b in raw]
+
+
+def _has_scheme(raw):
+    for i, b in enumerate(raw):
+        ch = chr(b)
+        if ch == ":":
+            return i > 0
+        if ch in "/?#" or not (ch.isascii() and (ch.isalnum() or ch in "+-.")) or (i == 0 and not ch.isalpha()):
+            return False
+    return False
+
+
+def hook_event(line):
+    """One line written by the library's own hooks (crates/core/src/verif_trace.rs, --cfg iref_verif)
+    as an event of the trace specification.  This is a re-encoding only: type name -> family/kind,
+    hexadecimal -> code points."""
+    h = json.loads(line)
+    if h["post"] is None and not h["panic"]:
+        return None     # the call returned from a place without a hook: nothing to judge
+    ty = h["ty"]
+    fam = "uri" if "::uri::" in ty else "iri"
+    last = ty.split("::")[-1]
+    pre_raw = bytes.fromhex(h["pre"])
+    if h["op"] == "relative_to":
+        return {"ev": "rel", "fam": fam, "a": _codepoints(h["pre"]), "b": _codepoints(h["arg"]),
+                "r": _codepoints(h["post"]) if h["post"] is not None else [], "a_after": _codepoints(h["pre"]),
+                "b_after": _codepoints(h["arg"]), "panic": h["panic"], "src": "hook"}
+    if last in ("UriBuf", "IriBuf"):
+        kind = "full"
+    elif last in ("UriRefBuf", "IriRefBuf"):
+        kind = "ref"
+    elif h["standalone"]:
+        kind = "path" if last == "Path" else "authority"
+    else:
+        # a handle inside a buffer does not know the buffer's type: a text with a scheme is judged as
+        # a full URI/IRI (the two languages coincide on such texts, MC_Incl)
+        kind = "full" if _has_scheme(pre_raw) else "ref"
+    return {"ev": "edit", "fam": fam, "kind": kind, "pre": _codepoints(h["pre"]), "op": h["op"],
+            "arg": _codepoints(h["arg"]), "post": _codepoints(h["post"]) if h["post"] is not None else [],
+            "panic": h["panic"], "src": "hook"}
+
+
+def repo_fingerprint():
+    parts = []
+    for cmd in (["git", "-C", REPO, "rev-parse", "HEAD"], ["git", "-C", REPO, "status", "--porcelain"],
+                ["git", "-C", REPO, "diff", "HEAD"]):
+        r = sh(cmd, stdout=subprocess.PIPE, stderr=subprocess.DEVNULL)
+        parts.append(r.stdout)
+    return hashlib.sha256(b"\0".join(parts)).hexdigest()
+
+
+def run_suite_trace():
+    """Direction B on the repository's OWN tests: build /repo with the hooks on (--cfg iref_verif), run its
+    unit, integration and doc tests with IREF_VERIF_TRACE set, and return the recorded calls as trace-spec
+    events.  Cached per state of the working tree (all checks of one sweep share one recording)."""
+    wdir = os.path.join(WORK, "suite")
+    os.makedirs(wdir, exist_ok=True)
+    fp = repo_fingerprint()
+    events = os.path.join(wdir, "events.ndjson")
+    stamp = os.path.join(wdir, "fingerprint")
+    if os.path.exists(events) and os.path.exists(stamp) and open(stamp).read() == fp:
+        return events
+    if not os.path.exists(os.path.join(REPO, "crates", "core", "src", "verif_trace.rs")):
+        raise ToolError("the hooks (crates/core/src/verif_trace.rs) are missing from %s" % REPO)
+    raw = os.path.join(wdir, "hooks.ndjson")
+    if os.path.exists(raw):
+        os.remove(raw)
+    t0 = time.time()
+    env = {"IREF_VERIF_TRACE": raw, "RUSTFLAGS": "--cfg iref_verif", "CARGO_NET_OFFLINE": "true"}
+    # cargo does not see grammar.abnf / *.aut.cbor: force the proc-macro to run again when they changed
+    target = os.path.join(WORK, "suite-target")
+    gstamp = os.path.join(wdir, "grammar-fingerprint")
+    gfp = grammar_fingerprint()
+    if os.path.isdir(target) and (not os.path.exists(gstamp) or open(gstamp).read() != gfp):
+        sh(["cargo", "clean", "--offline", "--manifest-path", os.path.join(REPO, "Cargo.toml"), "--target-dir", target,
+            "-p", "iref-core", "-p", "iref", "-p", "iref-macros"], env=env, stdout=subprocess.DEVNULL, stderr=subprocess.DEVNULL)
+    r = sh(["cargo", "test", "--workspace", "--offline", "--manifest-path", os.path.join(REPO, "Cargo.toml"),
+            "--target-dir", target], env=env, stdout=subprocess.PIPE,
+           stderr=subprocess.STDOUT, timeout=3600)
+    with open(gstamp, "w") as fh:
+        fh.write(grammar_fingerprint())
+    out = r.stdout.decode(errors="replace")
+    if r.returncode != 0 and "test result:" not in out:
+        raise ToolError("cargo test with the hooks on failed to build:\n" + out[-2000:])
+    n = lost = 0
+    with open(events + ".tmp", "w") as fh:
+        if os.path.exists(raw):
+            for line in open(raw, errors="replace"):
+                line = line.strip()
+                if not line:
+                    continue
+                try:
+                    e = hook_event(line)
+                except (ValueError, KeyError):
+                    continue    # a line cut short by a dying test process
+                if e is None:
+                    lost += 1
+                    continue
+                fh.write(json.dumps(e) + "\n")
+                n += 1
+    os.replace(events + ".tmp", events)
+    with open(stamp, "w") as fh:
+        fh.write(fp)
+    log("suite  the repository's own tests with hooks on: %d calls recorded in %.1fs%s%s" % (
+        n, time.time() - t0, "" if r.returncode == 0 else "  (some tests FAILED)",
+        ("  (%d calls returned without passing their exit hook)" % lost) if lost else ""))
+    return events
 
 
 def _drive(args, wdir):
